@@ -63,7 +63,7 @@ def run_case(case: Dict[str, Any], ctx: Any) -> core.CaseResult:
                 continue
             got = float(rows["comp_comm_overlap_pctg"].iloc[0])
             want = round(100 * both / comm, 2)
-            if not (abs(got - want) <= 1e-9):
+            if not (abs(got - 100 * both / comm) <= 0.005 + 1e-9):                      # two decimals, either rounding of .xx5
                 res.bad("overlap-ratio", f"rank {r}: overlap {got}% but comm&comp time / comm time = {both}/{comm} -> {want}% "
                         f"(activities {sorted((e.ts, e.end, iv.kernel_type(e.name)[:4], e.stream) for e in per_rank[r] if iv.kernel_type(e.name)[:3] == 'COM')[:14]})")
             if not (0 <= got <= 100):
